@@ -68,7 +68,7 @@ func init() {
 		gp2, _ := e.GetGroupingPolicy()
 		return !has || (ok2 && err2 != nil), fmt.Sprintf("listed=%v HasLink(alice,admin)=%v; AddGroupingPolicy(bob)=(%v,%v) listed=%v", gp, has, ok2, err2, gp2)
 	}
-	// D14: single Add/RemoveGroupingPolicy never reaches a conditional role manager (the batch call does)
+	// D14 (fixed): every grouping call reaches a conditional role manager, not only the batch add
 	witnesses["D14-conditional-single-add"] = func() (bool, string) {
 		text := strings.Replace(rbacText, "g = _, _", "g = _, _, (_, _)", 1)
 		single, _ := casbin.NewEnforcer(mustModel(text))
@@ -77,7 +77,17 @@ func init() {
 		batch.AddGroupingPolicies([][]string{{"alice", "admin", "a", "b"}})
 		s1, _ := single.GetModel()["g"]["g"].CondRM.HasLink("alice", "admin")
 		b1, _ := batch.GetModel()["g"]["g"].CondRM.HasLink("alice", "admin")
-		return s1 != b1, fmt.Sprintf("HasLink(alice,admin) after single add=%v, after batch add of the same rule=%v", s1, b1)
+		batch.RemoveGroupingPolicy("alice", "admin", "a", "b")
+		b2, _ := batch.GetModel()["g"]["g"].CondRM.HasLink("alice", "admin")
+		single.RemoveGroupingPolicies([][]string{{"alice", "admin", "a", "b"}})
+		s2, _ := single.GetModel()["g"]["g"].CondRM.HasLink("alice", "admin")
+		// BuildRoleLinks rebuilds the conditional links from the listed rules
+		rebuilt, _ := casbin.NewEnforcer(mustModel(text))
+		rebuilt.EnableAutoBuildRoleLinks(false)
+		rebuilt.AddGroupingPolicy("bob", "admin", "a", "b")
+		_ = rebuilt.BuildRoleLinks()
+		r1, _ := rebuilt.GetModel()["g"]["g"].CondRM.HasLink("bob", "admin")
+		return !s1 || !b1 || b2 || s2 || !r1, fmt.Sprintf("HasLink(alice,admin) after single add=%v, after batch add=%v; after single removal=%v, after batch removal=%v; HasLink(bob,admin) after auto-build off + BuildRoleLinks=%v", s1, b1, b2, s2, r1)
 	}
 	// D20: the filtered file adapter splits lines at raw commas and skips rules shorter than the filter
 	witnesses["D20-filter-quoted-fields"] = func() (bool, string) {
